@@ -594,7 +594,7 @@ func Run(spec *Spec, tier string, seed int64) int {
 			// violations: confirm natively
 			seen := map[string]bool{}
 			for _, v := range rep.Violations {
-				key := e.Fn + ":" + v.Msg
+				key := e.Fn + ":" + strings.ReplaceAll(v.Msg, " ", "_")
 				if spec.FindingKey != nil {
 					key = spec.FindingKey(v)
 				}
